@@ -98,3 +98,99 @@ pub fn aead_stream_encryptor<R: io::Read>(
 ) -> Result<crate::crypto::aead::StreamEncryptor<R>, crate::crypto::aead::Error> {
     crate::crypto::aead::StreamEncryptor::new(sym_alg, aead, chunk_size, session_key, salt, source)
 }
+
+/// A `BufRead` that shows the given pieces one by one: `fill_buf` shows what is left of the
+/// current piece, and moves to the next piece only when the current one is used up.
+pub struct PieceSource {
+    pieces: std::collections::VecDeque<Vec<u8>>,
+    pos: usize,
+}
+
+impl PieceSource {
+    pub fn new(pieces: &[Vec<u8>]) -> Self {
+        Self {
+            pieces: pieces.iter().filter(|p| !p.is_empty()).cloned().collect(),
+            pos: 0,
+        }
+    }
+
+    /// Everything not yet consumed.
+    pub fn rest(&self) -> Vec<u8> {
+        let mut out = Vec::new();
+        for (i, p) in self.pieces.iter().enumerate() {
+            out.extend_from_slice(if i == 0 { &p[self.pos..] } else { &p[..] });
+        }
+        out
+    }
+}
+
+impl io::Read for PieceSource {
+    fn read(&mut self, buf: &mut [u8]) -> io::Result<usize> {
+        let n = {
+            let b = io::BufRead::fill_buf(self)?;
+            let n = b.len().min(buf.len());
+            buf[..n].copy_from_slice(&b[..n]);
+            n
+        };
+        io::BufRead::consume(self, n);
+        Ok(n)
+    }
+}
+
+impl io::BufRead for PieceSource {
+    fn fill_buf(&mut self) -> io::Result<&[u8]> {
+        while let Some(p) = self.pieces.front() {
+            if self.pos < p.len() {
+                break;
+            }
+            self.pieces.pop_front();
+            self.pos = 0;
+        }
+        Ok(self.pieces.front().map(|p| &p[self.pos..]).unwrap_or(&[]))
+    }
+
+    fn consume(&mut self, amt: usize) {
+        self.pos += amt;
+    }
+}
+
+/// Runs `armor::read_from_buf` with a small one-line parser over a source that shows
+/// `pieces` one by one. Returns the line (if any) and what is left in the source.
+///
+/// The parser returns the octets before the first LF and uses the LF; it fails when the
+/// input starts with `!`. It only decides once it has seen `lookahead` (0, 1 or 2) octets
+/// behind the LF.
+pub fn armor_read_from_buf_line(
+    pieces: &[Vec<u8>],
+    limit: usize,
+    lookahead: usize,
+) -> (Option<Vec<u8>>, Vec<u8>) {
+    fn line(i: &[u8], lookahead: usize) -> nom::IResult<&[u8], Vec<u8>> {
+        if i.first() == Some(&b'!') {
+            return Err(nom::Err::Error(nom::error::Error::new(
+                i,
+                nom::error::ErrorKind::Tag,
+            )));
+        }
+        match i.iter().position(|b| *b == b'\n') {
+            Some(k) if k + 1 + lookahead <= i.len() => Ok((&i[k + 1..], i[..k].to_vec())),
+            _ => Err(nom::Err::Incomplete(nom::Needed::Unknown)),
+        }
+    }
+    fn ahead0(i: &[u8]) -> nom::IResult<&[u8], Vec<u8>> {
+        line(i, 0)
+    }
+    fn ahead1(i: &[u8]) -> nom::IResult<&[u8], Vec<u8>> {
+        line(i, 1)
+    }
+    fn ahead2(i: &[u8]) -> nom::IResult<&[u8], Vec<u8>> {
+        line(i, 2)
+    }
+    let mut src = PieceSource::new(pieces);
+    let res = match lookahead {
+        0 => crate::armor::read_from_buf(&mut src, "line", limit, ahead0).ok(),
+        1 => crate::armor::read_from_buf(&mut src, "line", limit, ahead1).ok(),
+        _ => crate::armor::read_from_buf(&mut src, "line", limit, ahead2).ok(),
+    };
+    (res, src.rest())
+}
